@@ -277,17 +277,21 @@ func (r *SexpArray) Type() *RegisteredType {
 		}
 		r.typing = true
 		defer func() { r.typing = false }()
+		// The answer is not remembered in r.Typ: the elements can
+		// change (aset, append on spare capacity) and results of
+		// append, rest, slice copy r.Typ, so a remembered answer made
+		// ["s"] pass for the empty array it was appended to, or for
+		// the ([]int64) it used to be.
 		if len(r.Val) > 0 {
 			// take type from first element
 			ty := r.Val[0].Type()
 			if ty != nil {
-				r.Typ = GoStructRegistry.GetOrCreateSliceType(ty)
+				return GoStructRegistry.GetOrCreateSliceType(ty)
 			}
-		} else {
-			// empty array
-			r.Typ = GoStructRegistry.Lookup("[]")
-			//P("lookup [] returned type %#v", r.Typ)
+			return nil
 		}
+		// empty array
+		return GoStructRegistry.Lookup("[]")
 	}
 	return r.Typ
 }
